@@ -1425,7 +1425,8 @@ fn tantivy_case(case: u64, rng: &mut Rng, rep: &mut Report) {
     match del {
         "few" => {
             for _ in 0..rng.urange(1, 5) {
-                let g = *rng.pick(&[0usize, n - 1, rng.usize_below(n)]);
+                let r = rng.usize_below(n);
+                let g = *rng.pick(&[0usize, n - 1, r]);
                 alive[g] = false;
                 writer.delete_term(Term::from_field_u64(id_f, g as u64));
             }
@@ -1511,9 +1512,9 @@ fn tantivy_case(case: u64, rng: &mut Rng, rep: &mut Report) {
 fn main() {
     let ctx = Ctx::from_env("C08", "exploration");
     THOROUGH.store(!ctx.quick(), std::sync::atomic::Ordering::Relaxed);
-    let mut rep = run_cases(&ctx, "columnar", ctx.scale(260, 9000) as u64, columnar_case);
-    rep.merge(run_cases(&ctx, "merge", ctx.scale(200, 7000) as u64, merge_case));
-    rep.merge(run_cases(&ctx, "tantivy", ctx.scale(60, 1600) as u64, tantivy_case));
-    rep.merge(run_cases(&ctx, "rawcodec", ctx.scale(60, 1500) as u64, rawcodec_case));
+    let mut rep = run_cases(&ctx, "columnar", ctx.scale(260, 3600) as u64, columnar_case);
+    rep.merge(run_cases(&ctx, "merge", ctx.scale(200, 2600) as u64, merge_case));
+    rep.merge(run_cases(&ctx, "tantivy", ctx.scale(60, 700) as u64, tantivy_case));
+    rep.merge(run_cases(&ctx, "rawcodec", ctx.scale(60, 600) as u64, rawcodec_case));
     simple_finish(&ctx, rep, "wip", ctx.scale(100, 2000), &[]);
 }
